@@ -70,11 +70,27 @@ def _is_file_write(node: ast.AST, fname: str = 'file') -> ast.AST | None:
     return None
 
 
-def _pack_call(node: ast.AST) -> tuple[str, ast.AST] | None:
-    """pack('<fmt>', value) -> (fmt, value)"""
-    if isinstance(node, ast.Call) and isinstance(node.func, ast.Name) and node.func.id == 'pack' and len(node.args) == 2 \
-            and isinstance(node.args[0], ast.Constant) and isinstance(node.args[0].value, str):
-        return node.args[0].value, node.args[1]
+def _struct_call(node: ast.AST, structs: dict[str, str]) -> tuple[str, str, list[ast.AST], str | None] | None:
+    """Every spelling of a struct conversion -> (method, format, remaining arguments, name of the Struct constant or None):
+    pack('<fmt>', v...) / struct.pack(...) / unpack(...) / struct.unpack(...)          module functions
+    NAME.pack(v...) / NAME.unpack(b)   with NAME = Struct('<fmt>') at module level         precompiled constants
+    Struct('<fmt>').pack(v...) / struct.Struct('<fmt>').unpack(b)                            inline objects"""
+    if not isinstance(node, ast.Call) or node.keywords:
+        return None
+    f = node.func
+    meth = f.id if isinstance(f, ast.Name) else f.attr if isinstance(f, ast.Attribute) else None
+    if meth not in ('pack', 'unpack'):
+        return None
+    if isinstance(f, ast.Name) or (isinstance(f, ast.Attribute) and isinstance(f.value, ast.Name) and f.value.id == 'struct'):
+        if node.args and isinstance(node.args[0], ast.Constant) and isinstance(node.args[0].value, str):
+            return meth, node.args[0].value, list(node.args[1:]), None
+        return None
+    base = f.value
+    if isinstance(base, ast.Name) and base.id in structs:
+        return meth, structs[base.id], list(node.args), base.id
+    if isinstance(base, ast.Call) and ast.unparse(base.func) in ('Struct', 'struct.Struct') and len(base.args) == 1 and not base.keywords \
+            and isinstance(base.args[0], ast.Constant) and isinstance(base.args[0].value, str):
+        return meth, base.args[0].value, list(node.args), None
     return None
 
 
@@ -99,7 +115,7 @@ def translate_cmdseq() -> tuple[str, dict]:
         if isinstance(n, ast.Assign) and len(n.targets) == 1 and isinstance(n.targets[0], ast.Name):
             nm = n.targets[0].id
             v = n.value
-            if isinstance(v, ast.Call) and isinstance(v.func, ast.Name) and v.func.id == 'Struct' and len(v.args) == 1 \
+            if isinstance(v, ast.Call) and ast.unparse(v.func) in ('Struct', 'struct.Struct') and len(v.args) == 1 and not v.keywords \
                     and isinstance(v.args[0], ast.Constant) and isinstance(v.args[0].value, str):
                 structs[nm] = v.args[0].value
             elif nm == 'SEQ_HEADER':
@@ -157,7 +173,8 @@ def translate_cmdseq() -> tuple[str, dict]:
         if isinstance(node, ast.Call) and isinstance(node.func, ast.Attribute) and node.func.attr == 'write':
             writes_seen += 1
             arg = node.args[0]
-            pk = _pack_call(arg)
+            sc = _struct_call(arg, structs)
+            pk = (sc[1], sc[2][0]) if sc is not None and sc[0] == 'pack' and len(sc[2]) == 1 else None
             pd = _pad_call(arg)
             if isinstance(arg, ast.Name) and arg.id == 'SEQ_HEADER':
                 continue
@@ -178,12 +195,11 @@ def translate_cmdseq() -> tuple[str, dict]:
                     raise TranslateError(f'cmdseq.py: write(): unexpected pad_string({pd[0]}, ...) written directly')
                 name_w = pd[1]
                 continue
-            if isinstance(arg, ast.Call) and isinstance(arg.func, ast.Attribute) and arg.func.attr == 'pack' \
-                    and isinstance(arg.func.value, ast.Name) and arg.func.value.id in structs:
+            if sc is not None and sc[0] == 'pack' and sc[3] is not None:
                 if pack_struct is not None:
                     raise TranslateError('cmdseq.py: write(): more than one struct pack call')
-                pack_struct = arg.func.value.id
-                for a in arg.args:
+                pack_struct = sc[3]
+                for a in sc[2]:
                     p = _pad_call(a)
                     if p is not None:
                         pad_widths[p[0]] = p[1]
@@ -227,6 +243,7 @@ def translate_cmdseq() -> tuple[str, dict]:
     lt_struct = ge_struct = None
     read_name_w = None
     read_counts = 0
+    read_versions = 0
     for node in ast.walk(p):
         if isinstance(node, ast.If) and isinstance(node.test, ast.Compare) and ast.unparse(node.test.left) == 'version':
             if len(node.test.ops) != 1 or not isinstance(node.test.comparators[0], ast.Constant):
@@ -244,10 +261,12 @@ def translate_cmdseq() -> tuple[str, dict]:
             a = node.args[0]
             if isinstance(a, ast.Call) and ast.unparse(a.func) == 'file.read' and isinstance(a.args[0], ast.Constant):
                 read_name_w = a.args[0].value
-        if isinstance(node, ast.Call) and isinstance(node.func, ast.Name) and node.func.id == 'unpack' \
-                and isinstance(node.args[0], ast.Constant) and node.args[0].value.lstrip('<@=') == 'I':
+        sc = _struct_call(node, structs)
+        if sc is not None and sc[0] == 'unpack' and sc[1].lstrip('<@=') == 'I':
             read_counts += 1
-    if thr is None or read_name_w is None or read_counts != 2:
+        if sc is not None and sc[0] == 'unpack' and sc[1].lstrip('<@=') == 'f':
+            read_versions += 1
+    if thr is None or read_name_w is None or read_counts != 2 or read_versions != 1:
         raise TranslateError('cmdseq.py: parse(): version test / name width / count reads not recognised')
     if thr[0] not in ('Lt', 'LtE'):
         raise TranslateError(f'cmdseq.py: parse(): version comparison {thr[0]} not modelled')
@@ -587,6 +606,18 @@ def _input_form(expr: ast.AST, src: str, what: str) -> tuple[str, str]:
                     if isinstance(b, ast.Attribute) and isinstance(b.value, ast.Subscript) and isinstance(b.value.value, ast.Name) \
                             and b.value.value.id == a and isinstance(b.value.slice, ast.Constant) and b.value.slice.value == 1:
                         return 'values', f'SKAttr {_eattr(b.attr)}'
+        # [scenes[k] for k in sorted(scenes)]  -- looked up by key, in key order (keys() or the mapping itself)
+        if isinstance(g.target, ast.Name) and isinstance(expr.elt, ast.Subscript) and isinstance(expr.elt.value, ast.Name) \
+                and expr.elt.value.id == src and isinstance(expr.elt.slice, ast.Name) and expr.elt.slice.id == g.target.id:
+            def keys(e: ast.AST) -> bool:
+                return (isinstance(e, ast.Name) and e.id == src) or (
+                    isinstance(e, ast.Call) and not e.args and not e.keywords and isinstance(e.func, ast.Attribute)
+                    and e.func.attr == 'keys' and isinstance(e.func.value, ast.Name) and e.func.value.id == src)
+            if keys(it):
+                return 'values', 'SKNone'
+            if isinstance(it, ast.Call) and isinstance(it.func, ast.Name) and it.func.id == 'sorted' and len(it.args) == 1 and not it.keywords \
+                    and keys(it.args[0]):
+                return 'values', 'SKDictKey'
     raise TranslateError(f'choreo.py: {what}: `{ast.unparse(expr)}` is not a recognised way to list the entries')
 
 
@@ -1197,7 +1228,7 @@ class _TextCensus:
         if isinstance(e, ast.BoolOp) and isinstance(e.op, ast.Or) and len(e.values) == 2 and isinstance(e.values[1], ast.Constant):
             return self.type_of(e.values[0], env, where)
         if isinstance(e, ast.Name):
-            if e.id in env:
+            if env.get(e.id, 'unknown') != 'unknown':
                 return env[e.id]
             raise TranslateError(f'{self.rel}: {where}: written name `{e.id}` has no known type')
         if isinstance(e, ast.Subscript):
@@ -1379,7 +1410,14 @@ class _TextCensus:
                 continue
             if isinstance(st, ast.Assign) and len(st.targets) == 1 and isinstance(st.targets[0], ast.Name):
                 nm = st.targets[0].id
-                v = st.value
+                v = self._inline_helper(st.value)
+                cq = self._cond_quoted(v)
+                if cq is not None:
+                    # x = f'"{E}"' if _needs_quotes(E) else E      (also through a helper: x = _quote_if_needed(E))
+                    src = ast.unparse(cq)
+                    cond[src] = 'needs_quotes'
+                    tpl[nm] = [[('fld', False, self.type_of(cq, env, where), src)]]
+                    continue
                 if isinstance(v, (ast.JoinedStr, ast.IfExp)) or (isinstance(v, ast.Constant) and isinstance(v.value, str)):
                     try:
                         alts = self.pieces(v, env, tpl, where)
@@ -1392,8 +1430,14 @@ class _TextCensus:
                     env[nm] = self._kind(v.attr) if self._kind(v.attr) != '?' else 'TyWord'
                 elif isinstance(v, ast.Name) and v.id in env:
                     env[nm] = env[v.id]
+                elif isinstance(v, ast.Name) and v.id.isupper():
+                    env[nm] = 'TyWord'             # a module-level constant
+                elif isinstance(v, ast.BinOp) and isinstance(v.op, ast.Add) and all(
+                        (isinstance(x, ast.Name) and env.get(x.id) == 'layout') or (isinstance(x, ast.Constant) and isinstance(x.value, str) and not x.value.strip())
+                        for x in (v.left, v.right)):
+                    env[nm] = 'layout'
                 else:
-                    env.setdefault(nm, 'TyWord')
+                    env[nm] = 'unknown'            # fails closed if it is ever written
                 continue
             if isinstance(st, (ast.Expr, ast.Return, ast.Pass, ast.Assert, ast.AnnAssign, ast.AugAssign, ast.Raise)):
                 if any(isinstance(n, ast.Call) and isinstance(n.func, ast.Attribute) and n.func.attr == 'write'
@@ -1402,6 +1446,54 @@ class _TextCensus:
                 continue
             if isinstance(st, (ast.With, ast.Try, ast.While)):
                 raise TranslateError(f'{self.rel}: {where}: statement {type(st).__name__} not modelled in a text writer')
+
+    def _inline_helper(self, v: ast.AST, depth: int = 0) -> ast.AST:
+        """`helper(a, b)` with `def helper(p, q): return EXPR` at module level (one return, positional or keyword arguments,
+        every parameter used at most ... as often as it likes: the arguments here are attribute reads without effects) -> EXPR[p:=a, q:=b]."""
+        if not (isinstance(v, ast.Call) and isinstance(v.func, ast.Name) and v.func.id in self.funcs) or depth > 3:
+            return v
+        fn = self.funcs[v.func.id]
+        body = [b for b in fn.body if not (isinstance(b, ast.Expr) and isinstance(b.value, ast.Constant))]
+        if len(body) == 2 and isinstance(body[0], ast.If) and not body[0].orelse and len(body[0].body) == 1 \
+                and isinstance(body[0].body[0], ast.Return) and isinstance(body[1], ast.Return):
+            # if c: return A / return B   ==   return A if c else B
+            ret: ast.AST = ast.IfExp(test=body[0].test, body=body[0].body[0].value, orelse=body[1].value)
+        elif len(body) == 1 and isinstance(body[0], ast.Return) and body[0].value is not None:
+            ret = body[0].value
+        else:
+            return v
+        params = [a.arg for a in fn.args.args]
+        if fn.args.vararg or fn.args.kwarg or fn.args.kwonlyargs or len(v.args) > len(params):
+            return v
+        bind = dict(zip(params, v.args))
+        for kw in v.keywords:
+            if kw.arg not in params or kw.arg in bind:
+                return v
+            bind[kw.arg] = kw.value
+        if set(bind) != set(params):
+            return v
+        if not all(isinstance(a, (ast.Name, ast.Attribute, ast.Constant)) for a in bind.values()):
+            return v                       # an argument with effects must not be duplicated
+
+        class Sub(ast.NodeTransformer):
+            def visit_Name(self, node: ast.Name) -> ast.AST:
+                return bind[node.id] if node.id in bind else node
+        import copy as _copy
+        return self._inline_helper(ast.fix_missing_locations(Sub().visit(_copy.deepcopy(ret))), depth + 1)
+
+    @staticmethod
+    def _cond_quoted(v: ast.AST) -> ast.AST | None:
+        """`f'"{E}"' if _needs_quotes(E) else E`  (or `E if not _needs_quotes(E) else f'"{E}"'`) -> E"""
+        if not isinstance(v, ast.IfExp):
+            return None
+        t, a, b = v.test, v.body, v.orelse
+        if isinstance(t, ast.UnaryOp) and isinstance(t.op, ast.Not):
+            t, a, b = t.operand, b, a
+        if isinstance(t, ast.Call) and isinstance(t.func, ast.Name) and t.func.id.startswith('_needs_quotes') and len(t.args) == 1 and not t.keywords:
+            e = ast.unparse(t.args[0])
+            if ast.unparse(b) == e and isinstance(a, ast.JoinedStr) and ast.unparse(a) == f"""f'"{{{e}}}"'""":
+                return t.args[0]
+        return None
 
     def const_callers(self, method: str, param_index: int) -> bool:
         """Every call `X.<method>(...)` in the module passes a string literal at the given position."""
